@@ -171,21 +171,35 @@ def build(ctx):
     obs.append(Obligation("rf.scale", "FlowProperties: m-scaled == pseudopressure * interp(pressure, c mu z / (2 p))(p_i): the factor that turns the flux of scaled pseudopressure into recovered fraction", scale, [c09.INIT], "CAS", scale_replay))
 
     def plateau():
+        # the attached fluid is any of: none, a real-gas FlowProperties (long table), a three-column one
         for cls, want in (("IdealReservoir", ONE - resv.pf / resv.p_init), ("SinglePhaseReservoir", tm.const(1))):
             f = ctx.engine.func(RES + cls + ".fvf_scale")
-            outs = ctx.engine.run_paths(f, lambda cls=cls: ([resv.make_reservoir(ctx, cls, None)], {}))
-            if len(outs) != 1 or outs[0].kind != "return":
-                return be.Verdict(be.REFUTED, "CAS", witness={}, detail="fvf_scale: unexpected paths")
-            v = be.prove_equal_cas(tm.toreal(outs[0].value), tm.toreal(want), {"p_f": (100.0, 5000.0), "p_init": (5000.0, 9000.0)}, seed=ctx.seed)
-            if v.status != be.PROVED:
-                v.detail = f"{cls}.fvf_scale: " + v.detail
-                return v
+            for fl in ("none", "long", "short"):
+                mk = lambda cls=cls, fl=fl: ([resv.make_reservoir(ctx, cls, None if fl == "none" else resv.make_fluid(ctx, cols=(None if fl == "long" else c09.SHORT))[0])], {})
+                outs = [o for o in ctx.engine.run_paths(f, mk) if o.kind != "infeasible"]
+                vals = {id(o.value): o.value for o in outs if o.kind == "return"}
+                if len(vals) != 1 or any(o.kind != "return" for o in outs):
+                    return be.Verdict(be.REFUTED, "CAS", witness={}, detail=f"{cls}.fvf_scale [fluid: {fl}]: the value depends on the attached fluid table or the call raises ({len(outs)} paths, {len(vals)} distinct values)")
+                v = be.prove_equal_cas(tm.toreal(list(vals.values())[0]), tm.toreal(want), {"p_f": (100.0, 5000.0), "p_init": (5000.0, 9000.0)}, seed=ctx.seed)
+                if v.status != be.PROVED:
+                    v.detail = f"{cls}.fvf_scale [fluid: {fl}]: " + v.detail
+                    return v
         return v
 
     def plateau_replay(w):
         Ir, Sr = real(RES + "IdealReservoir"), real(RES + "SinglePhaseReservoir")
         a, b_ = Ir(10, 2000.0, 8000.0).fvf_scale(), Sr(10, 2000.0, 8000.0).fvf_scale()
-        return {"reproduced": not (close(a, 0.75, 1e-14) and b_ == 1), "input": {"p_f": 2000.0, "p_i": 8000.0}, "observed": [float(a), float(b_)], "required": [0.75, 1]}
+        if not (close(a, 0.75, 1e-14) and b_ == 1):
+            return {"reproduced": True, "input": {"p_f": 2000.0, "p_i": 8000.0, "fluid": None}, "observed": [float(a), float(b_)], "required": [0.75, 1]}
+        from ..rt import c01 as rt1
+        for name in ("gas", "syn_kinked", "gas:desc"):
+            fluid = rt1.make_fluid(name)
+            p_i = rt1.P_INITIAL[name]
+            for ratio in (0.25, 0.75):
+                a, b_ = Ir(10, ratio * p_i, p_i, fluid).fvf_scale(), Sr(10, ratio * p_i, p_i, fluid).fvf_scale()
+                if not (close(float(a), 1 - ratio, 1e-13) and b_ == 1):
+                    return {"reproduced": True, "input": {"p_f": ratio * p_i, "p_i": p_i, "fluid": {"table": name, "table_params": rt1.table_params(name)}}, "observed": [float(a), float(b_)], "required": [1 - ratio, 1]}
+        return {"reproduced": False}
 
     obs.append(Obligation("rf.plateau_scale", "IdealReservoir.fvf_scale() == 1 - p_f/p_i and SinglePhaseReservoir.fvf_scale() == 1", plateau, [RES + "IdealReservoir.fvf_scale", RES + "SinglePhaseReservoir.fvf_scale"], "CAS", plateau_replay))
 
